@@ -349,13 +349,13 @@ func (sc *Scenario) drive(sa flows.SessionAssets, env envs.Environment, flowID s
 		out.err = fmt.Errorf("reading contact: %w", err)
 		return
 	}
-	eng := engine.NewBuilder().WithMaxResultChars(sc.MaxResult).Build()
+	eng := engine.NewBuilder().WithMaxResultChars(sc.MaxResult).WithMaxTemplateChars(sc.maxTemplate()).Build()
 	newMsg := func(text string) *flows.MsgIn {
 		return flows.NewMsgIn(flows.MsgUUID(uuids.NewV4()), urns.URN("tel:+12065551212"), nil, text, nil)
 	}
 	var trigger flows.Trigger
 	if sc.Trigger == "msg" {
-		trigger = triggers.NewBuilder(env, flow.Reference(false), contact).Msg(newMsg(sc.TriggerText)).Build()
+		trigger = triggers.NewBuilder(env, flow.Reference(false), contact).Msg(newMsg(sc.inputText(sc.TriggerText))).Build()
 	} else {
 		trigger = triggers.NewBuilder(env, flow.Reference(false), contact).Manual().Build()
 	}
@@ -377,7 +377,7 @@ func (sc *Scenario) drive(sa flows.SessionAssets, env envs.Environment, flowID s
 		if sc.Resume == "timeout" {
 			resume = resumes.NewWaitTimeout(nil, nil)
 		} else {
-			resume = resumes.NewMsg(nil, nil, newMsg(sc.ResumeText))
+			resume = resumes.NewMsg(nil, nil, newMsg(sc.inputText(sc.ResumeText)))
 		}
 		sprint, err = session.Resume(resume)
 		if err != nil {
